@@ -171,8 +171,10 @@ class EncoderSelector:
 
             return df, assignment_mgr
 
-        # Special case if there are no possible connections
-        if n_mat == 0:
+        # Special case if there are no possible connections, or if there is nothing to choose (at most one possible
+        # connection set for every existence pattern): no design variables are needed
+        if n_mat == 0 or (n_mat is not None and
+                          self._get_matrix_gen().count_all_matrices(max_by_existence=True) <= 1):
             return _instantiate_manager(DEFAULT_EAGER_ENCODER())
 
         def _print_stats(i_select):
